@@ -96,5 +96,14 @@ LitCases == {Mk("C18/litname/" \o ToString(i) \o "/" \o u \o "/" \o ctx \o (IF r
                 ELSE IF u = "cap" THEN <<Def(<<"o", "e", "c">>, <<App(<<LitStage(LitNames[i], raw, <<StrL("x4"), StrL("v")>>)>>)>>), PrintS(<<StrL("["), Var("o"), StrL("]"), Var("c")>>)>>
                 ELSE <<Def(<<"o", "e", "c">>, <<App(<<Stage("pa", <<StrL("first")>>), LitStage(LitNames[i], raw, <<StrL("mid")>>), Stage("pc", <<StrL("last")>>)>>)>>), PrintS(<<StrL("["), Var("o"), StrL("]"), Var("c")>>)>>)
              : i \in 1..Len(LitNames), u \in {"stmt", "cap", "pipe"}, ctx \in {"top", "func"}, raw \in BOOLEAN}
-ASSUME ndJsonSerialize("fam.ndjson", SetToSeq(One \cup Two \cup {c \in Many : TRUE} \cup Pipes \cup Seqs \cup Hist3 \cup SiteHist \cup LitCases))
+\* the blank identifier among the three targets of a capture, once and several times (round 12: "a name may not be defined twice" forgot that `_` may)
+BlankForms == <<<<"_", "_", "c">>, <<"o", "_", "_">>, <<"o", "_", "c">>, <<"_", "e", "c">>, <<"_", "_", "_">>>>
+BlankCases == {Mk("C18/blank/" \o ToString(i) \o "/" \o df \o "/" \o ctx, ctx,
+                  LET call == App(<<Stage("pa", <<StrL("x6"), StrL("two words")>>)>>)
+                      t == BlankForms[i]
+                      shown == [j \in 1..3 |-> IF t[j] = "_" THEN StrL("-") ELSE Var(t[j])]
+                  IN <<IF df = "short" THEN Def(t, <<call>>) ELSE VarDef(t, "", <<call>>)>> \o <<PrintS(<<StrL("[")>> \o shown \o <<StrL("]")>>)>>)
+               : i \in 1..4, df \in {"short", "var"}, ctx \in {"top", "func"}}
+              \cup {Mk("C18/blank/pipe/" \o ctx, ctx, <<Def(<<"_", "_", "code">>, <<App(<<Stage("pa", <<StrL("a")>>), Stage("pb", <<StrL("x9")>>)>>)>>), PrintS(<<Var("code")>>)>>) : ctx \in {"top", "func"}}
+ASSUME ndJsonSerialize("fam.ndjson", SetToSeq(One \cup Two \cup {c \in Many : TRUE} \cup Pipes \cup Seqs \cup Hist3 \cup SiteHist \cup LitCases \cup BlankCases))
 =============================================================================
